@@ -284,6 +284,21 @@ pub fn client_msg(clock: &Clock, class: &str, i: u64) -> ClientMessage<String> {
         "cancel-idmax" => {
             return ClientMessage::Cancel { trace_context: ctx.trace_context, request_id: u64::MAX };
         }
+        // messages made of default values only (what an untraced, hand-written or foreign peer sends)
+        "cancel-notrace" => {
+            return ClientMessage::Cancel { trace_context: trace::Context::default(), request_id: i };
+        }
+        "cancel-zero" => {
+            return ClientMessage::Cancel { trace_context: trace::Context::default(), request_id: 0 };
+        }
+        "req-notrace" => {
+            ctx.trace_context = trace::Context::default();
+            (i, format!("body{}", i))
+        }
+        "req-zero" => {
+            ctx.trace_context = trace::Context::default();
+            (0, String::new())
+        }
         _ => (i, format!("body{}", i)),
     };
     ClientMessage::Request(Request { context: ctx, id, message: body })
@@ -1177,7 +1192,7 @@ pub fn run(a: &Args) -> Value {
         let kind = kinds[rng.gen_range(0..kinds.len())];
         let cfg = match kind {
             "rt" => {
-                let c2s = ["req", "req-id0", "req-idmax", "req-id32", "req-empty", "req-unicode", "req-large", "req-past", "req-now", "cancel", "cancel-idmax"];
+                let c2s = ["req", "req-id0", "req-idmax", "req-id32", "req-empty", "req-unicode", "req-large", "req-past", "req-now", "cancel", "cancel-idmax", "cancel-notrace", "cancel-zero", "req-notrace", "req-zero"];
                 let s2c = ["resp", "resp-idmax", "resp-unicode", "resp-large", "err:NotFound", "err:WouldBlock", "err:UnexpectedEof", "err:Unsupported", "err:OutOfMemory"];
                 let dir = ["c2s", "s2c"][rng.gen_range(0..2)];
                 let pool: &[&str] = if dir == "c2s" { &c2s } else { &s2c };
@@ -1194,7 +1209,7 @@ pub fn run(a: &Args) -> Value {
                        "transit": transit, "close": close, "cap": rng.gen_range(1..3u64), "iobuf": iobuf, "fscript": fs})
             }
             "sock" => {
-                let c2s = ["req", "req-id0", "req-idmax", "req-id32", "req-empty", "req-unicode", "req-large", "req-past", "req-now", "cancel", "cancel-idmax"];
+                let c2s = ["req", "req-id0", "req-idmax", "req-id32", "req-empty", "req-unicode", "req-large", "req-past", "req-now", "cancel", "cancel-idmax", "cancel-notrace", "cancel-zero", "req-notrace", "req-zero"];
                 let s2c = ["resp", "resp-idmax", "resp-unicode", "resp-large", "err:NotFound", "err:WouldBlock", "err:UnexpectedEof", "err:Unsupported", "err:OutOfMemory"];
                 let dir = ["c2s", "s2c"][rng.gen_range(0..2)];
                 let pool: &[&str] = if dir == "c2s" { &c2s } else { &s2c };
